@@ -488,12 +488,17 @@ func confirm(r *ev.Run, suspects []suspect, infos map[string]*progInfo) {
 		if len(dump) > 120<<10 {
 			dump = dump[:120<<10] + "\n...[truncated]"
 		}
+		cutAtEnd, ends := false, []int(nil)
+		if n := len(s.c.Faults); n > 0 {
+			cutAtEnd = atBatchEnd(s.c.Faults[n-1], infos[s.c.Prog])
+			ends = infos[s.c.Prog].bounds[stripOcc(s.c.Faults[n-1].Label)]
+		}
 		what := map[bool]string{true: "M1 (no consecutive-loss limit, replacement machines always available): ", false: "M2 (production setting): "}[s.c.Mode == "M1"]
 		switch {
 		case s.class == "hang":
-			what += "Run/scan did not return within 60 s after the machine loss (normal run < 1 s)"
+			what += "Run/scan did not return within 60 s (normal run < 1 s)"
 		case s.class == "driver-crash":
-			what += "the driver process died after the machine loss"
+			what += "the driver process died"
 		case strings.HasPrefix(s.class, "success-wrong-rows"):
 			what += "Run and scan reported success but the rows differ from the failure-free rows (" + s.class + ")"
 		case strings.HasPrefix(s.class, "scan-error-after-wrong-rows"):
@@ -504,8 +509,7 @@ func confirm(r *ev.Run, suspects []suspect, infos map[string]*progInfo) {
 		r.Violate(s.sig, what, map[string]interface{}{
 			"program": s.c.Prog, "mode": s.c.Mode, "faults": s.c.Faults, "callee": s.res.Callee, "killed": s.res.Killed,
 			"outcome": s.res.Out, "expected_rows": infos[s.c.Prog].expected, "history": s.res.History, "scan_start": s.res.ScanStart,
-			"crash": s.res.Crash, "rerun_outcomes": reruns[i].classes, "cut_at_batch_end": atBatchEnd(s.c.Faults[len(s.c.Faults)-1], infos[s.c.Prog]),
-			"batch_ends_in_reply": infos[s.c.Prog].bounds[stripOcc(s.c.Faults[len(s.c.Faults)-1].Label)], "cases_with_this_signature": total[s.sig], "goroutine_dump": dump,
+			"crash": s.res.Crash, "rerun_outcomes": reruns[i].classes, "cut_at_batch_end": cutAtEnd, "batch_ends_in_reply": ends, "cases_with_this_signature": total[s.sig], "goroutine_dump": dump,
 		})
 	}
 	if unconfirmed > 0 {
